@@ -1,4 +1,19 @@
 TEXTS = {
+    "C14": {
+        "text": "Machine-checked Lean 4 theorem C14_holds: for every wiring whose liveness queries answer from the "
+                "latch itself and whose loop notifies after stopped(), every run of the actor model (all programs, "
+                "interleavings, termination causes, awaited or not) is accepted by the C14 monitor: every "
+                "stopped()/running() on every handle equals 'the actor's task has ended'. The wiring facts "
+                "(shape of Addr::stopped/running, WeakAddr::stopped, latch_resolved, order of stopped()/notify()) are "
+                "re-extracted from /repo/src and re-proved by `decide` on every run; the negation is proved for the "
+                "peek-only wiring by a concrete witness. Real traces (queries at every position relative to "
+                "termination and to awaits) must be accepted by the model and pass the monitor.",
+        "design_ref": "DESIGN.md §5 C14, §8 D1",
+        "note": "Trusted: Lean kernel, axioms propext/Classical.choice/Quot.sound; model of Shared/oneshot latch "
+                "(pending/fired/dropped + per-handle drained flag) validated by trace acceptance; translator's shape "
+                "recognition of the query bodies. Registry reactions that depend on the queries are C08's.",
+        "technique": "Lean 4 proof (latch/doneness invariant) + regenerated wiring + checked trace correspondence",
+    },
     "C12": {
         "text": "Machine-checked Lean 4 theorem C12_holds: for every wiring whose send entry points use the waiting "
                 "path, every mailbox bound n (0 included) or unbounded, every label sequence of the actor model "
@@ -19,6 +34,6 @@ TEXTS = {
 _PENDING = "check under construction in this round: model + theorem not yet wired into ./check (see DESIGN.md build order); not claimed until its three obligations run end to end"
 NOT_APPLICABLE = [
     {"property_id": p, "reason": _PENDING}
-    for p in ["C01", "C02", "C03", "C04", "C05", "C06", "C07", "C08", "C09", "C10", "C11", "C13", "C14", "C15",
+    for p in ["C01", "C02", "C03", "C04", "C05", "C06", "C07", "C08", "C09", "C10", "C11", "C13", "C15",
               "C16", "C17", "C18", "C19"]
 ]
